@@ -630,7 +630,7 @@ pub fn recovery_tier(hist: &History, ctx: &crate::runner::Ctx, modulus: u64, max
         randoms: 1,
     };
     let r = match hist.cfg.hasher {
-        crate::reftrie::HasherKind::Blake3 => run_fault_case::<crate::driver::B3>(&fc, &fp, &ctx.scratch),
+        crate::reftrie::HasherKind::Blake3 | crate::reftrie::HasherKind::TailLabel => run_fault_case::<crate::driver::B3>(&fc, &fp, &ctx.scratch),
         crate::reftrie::HasherKind::Sha2 => run_fault_case::<crate::driver::S2>(&fc, &fp, &ctx.scratch),
     };
     let ci = r.map_err(|v| Violation { step: v.step, msg: format!("[{tag}] {}", v.msg) })?;
